@@ -9,9 +9,10 @@ import common
 import ecc_util as eu
 from common import hx
 
-LEAN_MODULES = ["Pff.Props.C12"]
+LEAN_MODULES = ["Pff.Props.C12", "Pff.Props.Path"]
 PROP_MODULE = "Pff.Props.C12"
-THEOREMS = ["Pff.RSSpec.C12_parity_identical", "Pff.RSSpec.C12_parity_unique", "Pff.RSSpec.C12_codecs_1_2_3", "Pff.RSSpec.C11_codecA_good"]
+THEOREMS = ["Pff.RSSpec.C12_parity_identical", "Pff.RSSpec.C12_parity_unique", "Pff.RSSpec.C12_codecs_1_2_3", "Pff.RSSpec.C11_codecA_good",
+            "Pff.Path.C12_recorded_root_independent", "Pff.Path.PATH_gen_root_independent"]
 MODELLED = [("pyFileFixity/lib/eccman.py", "ECCMan.encode"), ("pyFileFixity/lib/eccman.py", "ECCMan.__init__")]
 TRUSTED_BASE = [
     "Lean 4.33.0 kernel; axioms per theorem under coverage.theorems; Mathlib v4.33.0 modules imported by lean/Pff/Proofs",
@@ -184,6 +185,14 @@ def run(oc, tier, seed, model_available, escalate):
                                               "what": "codecs 1-3 do not handle an ecc file damaged beyond repair in its %s alike" % what})
                     oc.count("cross-codec: ecc file damaged in %s" % what)
         oc.distinct.add(("tool", i, tool))
+    # ---- path layer: the repo's fullpath / path2unix / recwalk / relpath_posix and the os.path functions under them vs the Lean model
+    # (Pff.Path), and the relocation statement on the real functions
+    import path_x
+    pl, pi, pbad = path_x.cases(rng, (400 if tier == "quick" else 6000) * (2 if escalate else 1), common.scratch(), oc)
+    lines += pl
+    impl += pi
+    for b_ in pbad[:3]:
+        oc.violations.append({"input": {k: v for k, v in b_.items() if k != "what"}, "what": b_["what"]})
     shutil.rmtree(d, ignore_errors=True)
     if f20_seen:
         oc.violations.append({"finding": "F20", "what": "raw .idx differs for a moved tree (absolute offsets include the preamble)"})
